@@ -165,7 +165,15 @@ fn run_pair(out: &mut CaseOut, text: &str, goals: &[String], checked: bool, orig
         };
         use chalk_solve::ext::GoalExt;
         let peeled = goal.into_peeled_goal(chalk_integration::interner::ChalkIr);
-        let (oa, _, fa) = with_program(&ls.0, || fresh_solve_budget(&ls.0, slg(), &peeled, 400_000));
+        // SLG through the concrete solver type so that hook H4 can show a stale delayed-answer table (F11)
+        let (oa, fa, stale) = with_program(&ls.0, || {
+            let db = FaultDb::new(&*ls.0.program, "slg");
+            db.budget.set(400_000);
+            let mut s = chalk_engine::solve::SLGSolver::<I>::new(10, None);
+            let o = solve(&mut s, &db, &peeled);
+            let stale = crate::common::slg_stale_table(&mut s);
+            (o, db.nonground_coinductive.get(), stale)
+        });
         let (ob, _, fb) = with_program(&ls.1, || fresh_solve_budget(&ls.1, rec(), &peeled, 400_000));
         out.evals += 1;
         match (&oa, &ob) {
@@ -173,9 +181,14 @@ fn run_pair(out: &mut CaseOut, text: &str, goals: &[String], checked: bool, orig
                 // known root causes of disagreement are classified by the observed non-ground coinductive condition
                 let before = out.violations.len();
                 with_program(&ls.0, || compare(out, &ls.0, text, g, a, b, origin));
-                if out.violations.len() > before && (fa || fb) {
+                if out.violations.len() > before {
                     let v = out.violations.last_mut().unwrap();
-                    v.sig = Some("coinductive-nonground:solver-disagreement".into());
+                    if stale && a.is_none() && b.is_some() {
+                        // F11 only ever loses SLG answers
+                        v.sig = Some("slg:stale-delayed-answer-table".into());
+                    } else if fa || fb {
+                        v.sig = Some("coinductive-nonground:solver-disagreement".into());
+                    }
                 }
             }
             _ => {
